@@ -271,7 +271,7 @@ def run_case(case: dict[str, Any], wd: Path) -> dict[str, Any]:
             V.append(C.viol(f"frame of model step {r['step']} (frame {n}, stored in {want_file}) was read from {r['file']}", **desc))
             break
         if r["kind"] == "vel":
-            if abs(r["u"] - au[n]) > tol_rel * 2 + 1e-4 * case["packed"] or abs(r["v"] - av[n]) > tol_rel * 2 + 1e-4 * case["packed"]:
+            if not (abs(r["u"] - au[n]) <= tol_rel * 2 + 1e-4 * case["packed"]) or not (abs(r["v"] - av[n]) <= tol_rel * 2 + 1e-4 * case["packed"]):
                 V.append(C.viol(f"read for model step {r['step']} returned u={r['u']:.5f}, frame {n} holds {au[n]:.5f}", **desc))
                 break
         elif abs(r["val"] - scal_vals[r["name"]][n]) > 0.06:
@@ -294,25 +294,25 @@ def run_case(case: dict[str, Any], wd: Path) -> dict[str, Any]:
                 continue
             gu, gv = snap["vel"][f]
             cnt["velocity_values_compared"] = cnt.get("velocity_values_compared", 0) + 2 * len(gu)
-            if np.max(np.abs(gu - wu)) > tol_rel * (1 + abs(wu)) * 3 or np.max(np.abs(gv - wv)) > tol_rel * (1 + abs(wv)) * 3:
+            if not (np.max(np.abs(gu - wu)) <= tol_rel * (1 + abs(wu)) * 3) or not (np.max(np.abs(gv - wv)) <= tol_rel * (1 + abs(wv)) * 3):
                 V.append(C.viol(f"step {s} + {f}: velocity u={float(gu[0]):.6f}, linear interpolation between the bracketing frames gives {wu:.6f} "
                                 f"(v={float(gv[0]):.6f} vs {wv:.6f})", **desc))
                 break
         else:
             # velocity(step, 1.0) == velocity(step+1, 0)
             if prev1 is not None and 0.0 in snap["vel"]:
-                if abs(prev1 - float(snap["vel"][0.0][0][0])) > tol_rel * 6:
+                if not (abs(prev1 - float(snap["vel"][0.0][0][0])) <= tol_rel * 6):
                     V.append(C.viol(f"velocity(step {s - 1}, fraction 1) = {prev1:.6f} but velocity(step {s}, fraction 0) = {float(snap['vel'][0.0][0][0]):.6f}", **desc))
                     break
             prev1 = float(snap["vel"][1.0][0][0]) if 1.0 in snap["vel"] else None
             # forcing.variables u (evaluated by force.update at this step)
             x = S + sgn * s
             wu = sgn * interp(P, au, x)
-            if "u" in snap["variables"] and len(snap["variables"]["u"]) and abs(float(snap["variables"]["u"][0]) - wu) > tol_rel * (1 + abs(wu)) * 3:
+            if "u" in snap["variables"] and len(snap["variables"]["u"]) and not (abs(float(snap["variables"]["u"][0]) - wu) <= tol_rel * (1 + abs(wu)) * 3):
                 V.append(C.viol(f"step {s}: forcing.variables['u'] = {float(snap['variables']['u'][0]):.6f}, interpolation gives {wu:.6f}", **desc))
                 break
             wv0 = sgn * interp(P, av, x)
-            if "v" in snap["variables"] and len(snap["variables"]["v"]) and abs(float(snap["variables"]["v"][0]) - wv0) > tol_rel * (1 + abs(wv0)) * 3:
+            if "v" in snap["variables"] and len(snap["variables"]["v"]) and not (abs(float(snap["variables"]["v"][0]) - wv0) <= tol_rel * (1 + abs(wv0)) * 3):
                 V.append(C.viol(f"step {s}: forcing.variables['v'] = {float(snap['variables']['v'][0]):.6f}, interpolation gives {wv0:.6f}", **desc))
                 break
             for name, vals in scal_vals.items():
@@ -344,7 +344,7 @@ def run_case(case: dict[str, Any], wd: Path) -> dict[str, Any]:
             if abs(x - P[-1]) < 1e-9:
                 sit["warm_start_reaches_last_frame"] = 1
             wu = interp(P, au, x)
-            if abs(float(snap["variables"]["u"][0]) - wu) > tol_rel * (1 + abs(wu)) * 3:
+            if not (abs(float(snap["variables"]["u"][0]) - wu) <= tol_rel * (1 + abs(wu)) * 3):
                 V.append(C.viol(f"warm-started run, model time {snap['time']}: forcing.variables['u'] = {float(snap['variables']['u'][0]):.6f}, interpolation between the bracketing frames gives {wu:.6f}", **desc))
                 break
             for name, vals in scal_vals.items():
